@@ -25,6 +25,8 @@ def scenarios(tier):
     scrubbed = base + [("cmd", "scrub", "-p", "full"), ("write", "d1", "late", 1000, 0), ("cmd", "sync")]
     sc += [("scrub-new-only-failing", Config(levels=1, ndisks=2), scrubbed, ("scrub", "-p", "new")),
            ("scrub-new-only-failing", Config(levels=2, ndisks=2), scrubbed, ("scrub", "-p", "new"))]
+    sc += [("sync-adds-rehash", Config(levels=1, ndisks=2), base + [("cmd", "rehash")] + adds, ("sync",)),
+           ("scrub-rehash", Config(levels=1, ndisks=2), base + adds + [("cmd", "sync"), ("cmd", "rehash")], ("scrub", "-p", "full"))]
     if True:
         sc += [("sync-adds", Config(levels=3, ndisks=3), base + [("write", "d3", "anchor", 700, 0)] + adds, ("sync",)),
                ("scrub", Config(levels=1, ndisks=2), base + adds + [("cmd", "sync")], ("scrub", "-p", "full"))]
